@@ -26,7 +26,8 @@ RULE = ('Programs: real windows, snippets, templates, layout-mutated. Scenarios 
         'the pure ast.parse tree (pre-order, outermost first; with nested the captured parts are transformed again but never the template '
         'nodes nor the top node of a re-inserted whole match; count cuts off in walk order). Oracle: ast.dump(ast.parse(out.src)) == dump of '
         'the reference; C01 invariant on the result; subn counts == number of substitutions in the reference; identity template leaves the '
-        'structure unchanged; every old line that lies on no matched node is preserved in order. A raise must leave the tree unchanged from '
+        'structure unchanged; every old line that lies on no matched node is preserved in order. Scenarios ctx_*: a pattern carrying an expr_context instance under ctx=True (that context only) and ctx=False '
+        '(any context). sub() with the same arguments on a twin tree must give the same source as subn(). A raise must leave the tree unchanged from '
         'the last completed substitution (C12) and is otherwise not compared. Non-trivial = >= 2 substitutions in one run or a slice / '
         'multi-node capture, in a program with comments; distinct by (source, scenario, settings).')
 ASSUMPTIONS = [
@@ -37,7 +38,9 @@ ASSUMPTIONS = [
 # plus the separate 'loop' case kind (run_loop)
 SCENARIOS = ('wrap_name', 'wrap_name_attr', 'binop_call', 'call_retarget', 'list_tuple', 'if_while', 'return_wrap', 'identity_name', 'expr_stmt_pass', 'identity_binop',
              # quantifier captures (partial slices of a container) moved to another place of the template
-             'compare_pick', 'list_rotate', 'call_rotate', 'body_rotate', 'boolop_rotate')
+             'compare_pick', 'list_rotate', 'call_rotate', 'body_rotate', 'boolop_rotate',
+             # option ctx: a pattern with an expr_context INSTANCE matches that context only with ctx=True, any context with ctx=False
+             'ctx_store_rename', 'ctx_any_rename', 'ctx_store_attr', 'ctx_any_attr')
 
 
 # whole-match slot in every kind of template position x every kind of matched expression (enumerated, flat substitution)
@@ -279,6 +282,14 @@ class Ref:
             return isinstance(n, ast.If) and not n.orelse
         if s == 'boolop_rotate':
             return isinstance(n, ast.BoolOp)
+        if s == 'ctx_store_rename':
+            return isinstance(n, ast.Name) and isinstance(n.ctx, ast.Store)
+        if s == 'ctx_any_rename':
+            return isinstance(n, ast.Name)
+        if s == 'ctx_store_attr':
+            return isinstance(n, ast.Attribute) and isinstance(n.ctx, ast.Store)
+        if s == 'ctx_any_attr':
+            return isinstance(n, ast.Attribute)
 
         return False
 
@@ -295,6 +306,10 @@ class Ref:
                 inner.value = T(inner.value)
 
             return ast.Call(func=ast.Name(id='log', ctx=L), args=[inner], keywords=[])
+        if s in ('ctx_store_rename', 'ctx_any_rename'):
+            return ast.Name(id='renamed', ctx=n.ctx)
+        if s in ('ctx_store_attr', 'ctx_any_attr'):
+            return ast.Attribute(value=T(n.value), attr='renamed', ctx=n.ctx)
         if s in ('identity_name', 'identity_binop'):
             inner = copy.copy(n)
 
@@ -432,6 +447,11 @@ def pattern_and_template(scn):
         return MReturn(M(v=expr)), 'return (__FST_v, None)'
     if scn == 'expr_stmt_pass':
         return MExpr(MCall), 'pass'
+
+    if scn in ('ctx_store_rename', 'ctx_any_rename'):
+        return MName(ctx=ast.Store()), 'renamed'
+    if scn in ('ctx_store_attr', 'ctx_any_attr'):
+        return MAttribute(value=M(v=...), ctx=ast.Store()), '__FST_v.renamed'
 
     from fst.match import MBoolOp, MCompare, MQSTAR
 
@@ -576,6 +596,8 @@ def execute(case, ctx):
         kw['on'] = 'leave'
     if back:
         kw['back'] = True
+    if scn.startswith('ctx_'):
+        kw['ctx'] = scn.startswith('ctx_store')
 
     desc = f'sub({scn}: {repl!r}, {kw})'
     site = f'{scn}:{"nested" if nested else "flat"}:{"leave" if leave else "enter"}'
@@ -599,6 +621,17 @@ def execute(case, ctx):
         raise Violation('C18.identity', f'{desc}: sub did not return self', site)
 
     new_src = root.src
+
+    # sub() is subn() without the counts: same arguments, same result
+    try:
+        twin = FST(src, 'exec')
+        twin.sub(pat, repl, **kw)
+        twin_src = twin.src
+    except Exception as exc:
+        raise Violation('C18.sub_vs_subn', f'{desc}: subn() returned but sub() with the same arguments raised {exc!r}', f'sub_vs_subn:{site}') from None
+
+    if twin_src != new_src:
+        raise Violation('C18.sub_vs_subn', f'{desc}: sub() and subn() give different results for the same arguments\n--- subn ---\n{new_src[:600]}\n--- sub ---\n{twin_src[:600]}', f'sub_vs_subn:{site}')
 
     try:
         got_S = c07.norm_dump(ast.parse(new_src))
